@@ -273,7 +273,9 @@ def run(chk, replay=None):
             # never a value some signature has as its default (96, 4096, 16384 ...): a dropped argument must show;
             # one value needs the third byte of a three-byte field
             return min(mx, rng.choice([100, 252, 4000, 0x12000]))
-        v = rng.randint(1, mx) if mx > 0 else 0
+        # zero is a value like any other (WRITE SAME with NUMBER OF BLOCKS 0 means "to the end of the medium"): the
+        # command still goes to the device, once
+        v = (0 if rng.random() < 0.12 else rng.randint(1, mx)) if mx > 0 else 0
         return v
 
     def optvalue(cls, name):
